@@ -1,7 +1,7 @@
 (* C19 -- main lemmas behind Props/C19.v: reachable-state invariants, the replacement rule,
    queue limits, and the witnesses of what the model (and the code) does not guarantee. *)
 From Coq Require Import List NArith PeanoNat Bool Lia ZifyBool ZifyNat ZifyN.
-From GQ Require Import Model.C19 Proofs.C19_Lists Proofs.C19_Struct Proofs.C19_Ops Proofs.C19_Heap Proofs.C19_State.
+From GQ Require Import Model.C19 Proofs.C19_Lists Proofs.C19_Struct Proofs.C19_Ops Proofs.C19_Heap Proofs.C19_State Proofs.C19_Contig Proofs.C19_Limits.
 Import ListNotations.
 Local Open Scope N_scope.
 
@@ -139,3 +139,86 @@ Proof.
     destruct (t_price t <=? t_price o) eqn:E1; [left; repeat split; discriminate|]. unfold bump_threshold.
     destruct (t_price t <? _) eqn:E2; [left; repeat split; discriminate|]. lia.
 Qed.
+
+(* ---------- what is NOT guaranteed (by the model, and by the code: both witnesses are
+   replayed on the real pool by the harness corpus) ---------- *)
+Definition w_cfg := Cfg 10 16 64 16 64.
+Definition w_st0 := St [(0,0)] [(0,1000000000)] 1 5000000.
+Definition w_st2 := St [(0,2)] [(0,1000000000)] 1 5000000.
+Definition w_A := T 0 0 10 21000 0.
+Definition w_B := T 0 1 3 21000 0.      (* below the pool's price limit 5: refused when re-injected *)
+Definition w_C := T 0 2 10 21000 0.
+(* two transactions are mined elsewhere, a third one is added on top, then the chain
+   reorganises back: A is re-injected, B is refused, and [A; C] is promoted with a gap *)
+Definition w_gap_history : list (op * list N) :=
+  [(OHead (Reset w_st2 [] [w_A; w_B]), []); (OAdd false [w_C], []); (OHead (Reset w_st0 [w_A; w_B] []), [])].
+
+Lemma gap_witness : map t_nonce (aget 0 (p_pend (run_hist w_cfg (init 5 w_st0) w_gap_history))) = [0; 2].
+Proof. vm_compute. reflexivity. Qed.
+
+Lemma contiguity_refuted_lemma : exists c pl st h a,
+  ~ contig (st_nonce (run_hist c (init pl st) h) a) (aget a (p_pend (run_hist c (init pl st) h))).
+Proof.
+  exists w_cfg, 5, w_st0, w_gap_history, 0. vm_compute. intros [_ [E _]]. discriminate.
+Qed.
+
+Definition w_st_poor := St [(0,0)] [(0,300000)] 1 5000000.
+Definition w_two : list (op * list N) := [(OAdd false [T 0 0 10 21000 0; T 0 1 10 21000 0], [])].
+Lemma cumulative_refuted_lemma : exists c pl st h a,
+  let p := run_hist c (init pl st) h in
+  st_bal p a < fold_right (fun t s => cost t + s) 0 (aget a (p_pend p)).
+Proof. exists w_cfg, 1, w_st_poor, w_two, 0. vm_compute. reflexivity. Qed.
+
+(* non-vacuity: an accepted replacement, and a state with pending and queued transactions *)
+Definition nv_st := St [(0,0);(1,0)] [(0,1000000000);(1,1000000000)] 1 5000000.
+Definition nv_pool := run_hist w_cfg (init 1 nv_st)
+  [(OAdd false [T 0 0 10 21000 0; T 0 1 10 21000 0; T 0 3 10 21000 0; T 1 2 7 21000 0], [])].
+Lemma nv_state : map t_nonce (aget 0 (p_pend nv_pool)) = [0; 1] /\ map t_nonce (aget 0 (p_queue nv_pool)) = [3]
+  /\ map t_nonce (aget 1 (p_queue nv_pool)) = [2] /\ pn_get nv_pool 0 = 2 /\ len (map fst (p_all nv_pool)) = 4.
+Proof. vm_compute. repeat split. Qed.
+Lemma nv_replacement : snd (add w_cfg (T 0 1 11 21000 0) false nv_pool) = true
+  /\ snd (fst (add w_cfg (T 0 1 11 21000 0) false nv_pool)) = VOk
+  /\ snd (fst (add w_cfg (T 0 3 10 21000 5) false nv_pool)) = VReplaceUnderpriced.
+Proof. vm_compute. repeat split. Qed.
+Lemma nv_monotone : monotone nv_st [(OAdd false [w_A], []); (OHead (Reset w_st2 [] [w_A; w_B]), []); (OTick, [])].
+Proof.
+  cbn [monotone r_st]. split; [|exact I]. intros a. unfold nget, nv_st, w_st2. cbn [s_nonce nfind].
+  destruct (0 =? a) eqn:E0; [lia|]. destruct (1 =? a) eqn:E1; lia.
+Qed.
+
+(* ---------- corollaries in the form used by Props/C19.v ---------- *)
+Lemma preserved_lemma c p o qo :
+  IWT p -> heap_ok p ->
+  IWT (fst (step c p o qo)) /\ heap_ok (fst (step c p o qo)) /\ pool_invariant (fst (step c p o qo)).
+Proof.
+  intros H K. split; [apply step_IWT; exact H|]. split; [apply hk_step; exact K|apply step_invariant; assumption].
+Qed.
+Lemma contiguous_partial_lemma c pl st h :
+  monotone st h ->
+  forall a, let p := run_hist c (init pl st) h in
+  contig (st_nonce p a) (aget a (p_pend p)) /\ pn_get p a = st_nonce p a + len (aget a (p_pend p)).
+Proof.
+  intros Hm a. pose proof (run_hist_K c h (init pl st) (init_IWT pl st) (init_K pl st) Hm a) as [A B]. split; assumption.
+Qed.
+Lemma affordable_lemma c pl st h a t :
+  let p := run_hist c (init pl st) h in
+  In t (aget a (p_pend p)) -> cost t <= st_bal p a /\ t_gas t <= s_maxgas (p_st p).
+Proof. apply (pi_affordable _ (reachable_invariant c pl st h)). Qed.
+Lemma disjoint_lemma c pl st h a x y :
+  let p := run_hist c (init pl st) h in
+  In x (aget a (p_pend p)) -> In y (aget a (p_queue p)) -> t_nonce x <> t_nonce y.
+Proof. apply (pi_disjoint _ (reachable_invariant c pl st h)). Qed.
+Lemma union_lemma c pl st h :
+  let p := run_hist c (init pl st) h in
+  NoDup (map fst (p_all p)) /\
+  forall t, In t (map fst (p_all p)) <-> In t (aget (t_from t) (p_pend p)) \/ In t (aget (t_from t) (p_queue p)).
+Proof. split; [apply (pi_all_nodup _ (reachable_invariant c pl st h))|apply (pi_all _ (reachable_invariant c pl st h))]. Qed.
+Lemma priced_lemma c pl st h t :
+  let p := run_hist c (init pl st) h in In (t, false) (p_all p) -> In t (p_heap p).
+Proof. apply (pi_priced _ (reachable_invariant c pl st h)). Qed.
+Lemma pnonce_lemma c pl st h a :
+  let p := run_hist c (init pl st) h in pn_get p a = last_next (st_nonce p a) (aget a (p_pend p)).
+Proof. apply (pi_pnonce _ (reachable_invariant c pl st h)). Qed.
+Lemma index_limit_lemma c pl st h :
+  len (map fst (p_all (run_hist c (init pl st) h))) <= c_gslots c + c_gqueue c.
+Proof. apply al_run_hist. apply al_init. Qed.
